@@ -28,6 +28,9 @@ def run(ck):
     # "at the first instruction boundary" also when the host runs many cycles at once: the same kinds of programs in random
     # slices (idle loops are fast-forwarded by the run loop, the specification is not), line and vectored routing
     files += sys_common.record(ck, ck.pick(8, 24), ck.pick(6, 16), tag='irqs', seedoff=400)
+    # idle / nop programs with both timers always running on short auto-restart periods, line and vectored routing,
+    # masks mostly open (many deliveries per program), also cut into slices of 2..5 cycles
+    files += sys_common.record(ck, ck.pick(6, 16), ck.pick(6, 12), tag='irqm', mode='irq', seedoff=1200)
     files += sys_common.record(ck, ck.pick(4, 12), ck.pick(4, 12), tag='irqio', mode='io', seedoff=800)
     sys_common.validate(ck, files)
     ck.sample_lines(files[0], 1, skip=5)
